@@ -91,6 +91,12 @@ CLAIMED["C14"] = {
     "design_ref": "DESIGN.md section 5 C14",
     "technique": "Coq proof over R / C of the C13 effect models against independent transfer-function specifications + bit-exact and measured-response correspondence",
 }
+
+CLAIMED["C01"] = {
+    "text": "Coq theorems (40; Flocq binary32/64, stdlib real axioms only via Flocq) over all float values: the output stage (clamp, mono mean, channel layout, chunking) writes exactly n*frames samples, each finite and in [-1,1] with the documented layout, unless the bus carries NaN (refuted twin: NaN passes the clamp); on top of C02's buffer-level renderer the device buffer IS that stage applied to the specified bus; every callback is chunks of 1..b frames covering the buffer; the model's step list allocates and frees nothing; the carry loops (`while x >= 1.0 { x -= 1.0 }`: clock ticks, static and streaming fractional position) run exactly floor(x) times for 0 <= x <= 2^53 (each subtraction exact) and never return from 2^55 or +inf (F7, F8); each gain stage (sound gain, panning, track gain, wet/dry blend) has an exact NaN condition, a safe regime and witnesses (F5, F37); imported from C08: nothing is destroyed on the audio thread and no queue overflows. Correspondence/monitors: whole-manager data scenes (every resource kind, every built-in effect, boundary arguments, directed scenarios) rendered on a real audio thread with a counting allocator (allocations/frees per callback compared with the model's 0), Drop-thread probes, watchdog, per-sample finiteness/range/layout; the model predicts the output stage on the recorded bus and the chunk sequence. Known findings F5 F7 F8 F29 F33 F34 F36-F40 attributed counterfactually (a failure belongs to a class only if neutralising exactly that trigger makes the scene pass). Partial: heap freedom is an annotation validated by measurement; NaN freedom of recursive effects, promptness and whole scenes are monitors, not theorems.",
+    "design_ref": "DESIGN.md section 5 C01 and section 10",
+    "technique": "Coq proof (Flocq binary32/64 theorems on the output stage, carry loops and gain stages; refinement onto C02's renderer) + whole-manager scenes on a real audio thread with counting allocator and counterfactual attribution",
+}
 REASON_WIP = "check not built yet in this session (work in progress; planned per DESIGN.md section 5)"
 
 def main():
